@@ -3,6 +3,7 @@ use crate::runner::Prop;
 pub mod c01;
 pub mod c03;
 pub mod c04;
+pub mod c10;
 pub mod c11;
 pub mod c06;
 
@@ -13,6 +14,7 @@ pub fn lookup(id: &str) -> Option<Box<dyn Prop>> {
         "C03" => Some(Box::new(c03::C03)),
         "C06" => Some(Box::new(c06::C06)),
         "C11" => Some(Box::new(c11::C11)),
+        "C10" => Some(Box::new(c10::C10)),
         _ => None,
     }
 }
